@@ -189,6 +189,24 @@ func runTotalLoops(x *Ctx, which string) {
 					return "what is stored is not the statement decoded from the element of this iteration"
 				})
 		}
+		if f := x.fn("C14.R3", "pkg/policy.statementsToIPLD"); f != nil {
+			totalLoop(x, "C14.R3", "total:statementsToIPLD", f, "an encoded statement list holds one tuple per statement: every iteration that does not fail assigns the node encoded from the statement of the iteration",
+				func(in ssa.Instruction) (ssa.Value, bool) {
+					if c, ok := in.(*ssa.Call); ok && c.Call.IsInvoke() && c.Call.Method.Name() == "AssignNode" && len(c.Call.Args) == 1 {
+						return c.Call.Args[0], true
+					}
+					return nil, false
+				},
+				func(v ssa.Value) string {
+					if extractOfCall(v, 0, func(c *ssa.Call) bool {
+						h := c.Call.StaticCallee()
+						return h != nil && x.P.InModule(h) && strings.HasSuffix(h.Signature.Results().At(0).Type().String(), "datamodel.Node")
+					}) {
+						return ""
+					}
+					return "what is assigned is not the node encoded from the statement of this iteration"
+				})
+		}
 		// and the loop visits every element: it counts from 0 to the node's own Length(), or steps the node's list
 		// iterator until it is done (a bound clamped to a constant drops the statements beyond it without an error)
 		if f := x.fn("C14.R3", "pkg/policy.statementsFromIPLD"); f != nil {
